@@ -50,7 +50,7 @@ using namespace verif;
 extern "C" const char* __asan_default_options(); // NOLINT
 extern "C" const char* __asan_default_options()  // NOLINT
 {
-    return "max_allocation_size_mb=32:allocator_may_return_null=1";
+    return "max_allocation_size_mb=8:allocator_may_return_null=1";
 }
 
 namespace
